@@ -82,7 +82,7 @@ func c01World(sealed bool) *vfWorld {
 	}
 	users[vfAutoUser] = "autobot-pw"
 	return vfNewWorld(vfOpts{CertBackends: []string{"password"}, WebUIBackends: []string{"password"}, Ed25519CA: true, Sealed: sealed,
-		AutomationUsers: []string{vfAutoUser}, AdminUsers: []string{"admin"}, Users: users, DenyFPs: []string{vfDenyFP()}})
+		AutomationUsers: []string{vfAutoUser}, AdminUsers: []string{"admin"}, Users: users, DenyFPs: vfDenyList()})
 }
 
 type c01Point struct {
@@ -199,6 +199,12 @@ func c01RunE2E(w *vfWorld, memo map[string]c01Memo, shapes map[string]vfCredShap
 	}
 	cq.Method = p.Method
 	cq.Cookies, cq.HasBasic, cq.Basic, cq.TLS, cq.Remote = m.q.Cookies, m.q.HasBasic, m.q.Basic, m.q.TLS, m.q.Remote
+	for k, v := range m.q.Header {
+		if cq.Header == nil {
+			cq.Header = map[string]string{}
+		}
+		cq.Header[k] = v
+	}
 	resp := w.Do(cq.Build())
 	issued := resp.Code/100 == 2 || c01HasSigned(resp.Body)
 	may := c01May(p.Cfg, m.t, p.Target, p.Method, p.Sealed)
@@ -230,7 +236,9 @@ func c01RunE2E(w *vfWorld, memo map[string]c01Memo, shapes map[string]vfCredShap
 
 // c01RunDecision evaluates the gate for one (cfg, level) with a key-less POST.
 func c01RunDecision(w *vfWorld, cookies map[int]*http.Cookie, cfg []string, level int) (violated bool, key, what, class string) {
-	w.state.Config.Base.AllowedAuthBackendsForCerts = cfg
+	if !w.loaded {
+		w.state.Config.Base.AllowedAuthBackendsForCerts = cfg
+	}
 	ck, ok := cookies[level]
 	if !ok {
 		ck = w.vfCookie("alice", level)
@@ -281,7 +289,7 @@ func init() {
 	vfRegister(&vfeng.Check{
 		ID:    "C01",
 		Level: "model_checking",
-		Rule: "exhaustive finite products on the real certGenHandler: (decision) all 2^9 method-name subsets x all 2^11 cookie level bit sets, key-less POST, admitted iff the handler proceeds to key parsing; (e2e) credential shapes x configurations x certificate types x HTTP methods x sealed/unsealed with a real RSA-2048 key; oracle mayIssue/mustIssue written from the statement; a class is (part, credential kind, issued/admitted, may, status)",
+		Rule: "exhaustive finite products on the real certGenHandler: (decision-loaded-config) 6 method lists written into a generated configuration file and loaded with the real loadVerifyConfigFile x all 2^11 cookie level bit sets; (decision) all 2^9 method-name subsets x all 2^11 cookie level bit sets, key-less POST, admitted iff the handler proceeds to key parsing; (e2e) credential shapes x configurations x certificate types x HTTP methods x sealed/unsealed with a real RSA-2048 key; oracle mayIssue/mustIssue written from the statement; a class is (part, credential kind, issued/admitted, may, status)",
 		Assumptions: []string{"listing `password` means any currently valid credential suffices; a keymaster-issued client certificate qualifies only through `password` (DESIGN 2.5)", "liveness is asserted only for the seven method names the certificate endpoint documents (password, U2F, SymantecVIP, IPCertificate, TOTP, Okta2FA, WebauthForCLI); `federated`/`BootstrapOTP` listed for certificates are recorded as unhonoured, not judged", "boundary shapes (exp == now, audience listing this server second, empty subject) are observed but not judged"},
 		Bounds: func(tier string) map[string]interface{} {
 			return map[string]interface{}{"cfg_subsets_decision": 512, "levels": 2048, "e2e_cfgs": len(c01Cfgs(tier == "thorough")), "shapes": len(vfCredShapes()), "multi_credential_requests": len(c01Combos(vfCredShapes()))}
@@ -325,6 +333,29 @@ func init() {
 				}
 			}
 			w.Close()
+			// ---- the same gate behind configuration FILES (generator output edited by
+			// the operator, loaded with the real loadVerifyConfigFile)
+			if c.Shard == c.NShards-1 {
+				for _, cfg := range [][]string{{"TOTP"}, {"U2F"}, {"password"}, {"TOTP", "SymantecVIP"}, {"IPCertificate"}, {"Okta2FA", "WebauthForCLI"}} {
+					lw, err := vfLoadedWorld(map[string]string{"allowed_auth_backends_for_certs": "[" + strings.Join(cfg, ", ") + "]", "allowed_auth_backends_for_webui": "[password]"})
+					if err != nil {
+						c.Res.HarnessErr = "loading a generated configuration failed: " + err.Error()
+						break
+					}
+					lw.loaded = true
+					for level := 0; level < 1<<11; level++ {
+						v, key, what, class := c01RunDecision(lw, nil, cfg, level)
+						c.Eval(1)
+						p := c01Point{Part: "decision-loaded-config", Cfg: cfg, Level: level}
+						if v {
+							c.Violate(key+"|configuration-file", what+" (configuration loaded from a file)", p)
+						} else {
+							c.Class("loaded-"+class, p)
+						}
+					}
+					lw.Close()
+				}
+			}
 			// ---- end-to-end product
 			shapeList, shapes := c01Shapes()
 			cfgs := c01Cfgs(c.Thorough())
@@ -391,6 +422,16 @@ func init() {
 				return false, err.Error()
 			}
 			vclock.Reset()
+			if p.Part == "decision-loaded-config" {
+				lw, err := vfLoadedWorld(map[string]string{"allowed_auth_backends_for_certs": "[" + strings.Join(p.Cfg, ", ") + "]", "allowed_auth_backends_for_webui": "[password]"})
+				if err != nil {
+					return false, err.Error()
+				}
+				defer lw.Close()
+				lw.loaded = true
+				v, key, what, class := c01RunDecision(lw, nil, p.Cfg, p.Level)
+				return v, key + " :: " + what + class
+			}
 			if p.Part == "decision" {
 				w := c01World(false)
 				defer w.Close()
